@@ -70,7 +70,33 @@ def model(variant, inc, start, end, mn, mx, text):
 BAD = {'float': 1.5, 'str': '2', 'bool': True, 'zero': 0, 'neg': -1, 'list': [1]}
 
 
+def check_defaults(case, ctx):
+    """Arguments left out behave like the documented defaults: start=0, end=2147483647, min_decimal=1, max_decimal=None."""
+    import pregex.meta.essentials as es
+    variant, kw = case['variant'], dict(case['kw'])
+    p = getattr(es, variant)(**kw)
+    start, end = kw.get('start', 0), kw.get('end', 2147483647)
+    mn, mx = kw.get('min_decimal', 1), kw.get('max_decimal', None)
+    acc = rej = 0
+    for t in case['candidates']:
+        cand = ('-' if variant == 'NegativeDecimal' else '') + t
+        want = model(variant, False, start, end, mn, mx, cand)
+        if want is None:
+            continue
+        got = p.is_exact_match(cand)
+        acc += want
+        rej += not want
+        if got != want:
+            violation('defaults', case, f"{variant}({', '.join(f'{k}={v}' for k, v in kw.items())}).is_exact_match({cand!r}) = {got}; with the "
+                      f'documented defaults the model says {want}', ctx)
+            break
+    ctx.count('mode:defaults')
+    ctx.case(case, acc > 0 and rej > 0, sample={'call': f'{variant}({kw})', 'candidates': case['candidates'][:6]})
+
+
 def check_case(case, ctx):
+    if case['mode'] == 'defaults':
+        return check_defaults(case, ctx)
     variant, inc = case['variant'], case['include_sign']
     start, end, mn, mx = case['start'], case['end'], case['min'], case['max']
     args = f'{start}, {end}, {mn!r}, {mx!r}' + (f', include_sign={inc}' if variant == 'Decimal' else '')
@@ -174,6 +200,13 @@ def gen_case(draw):
     cand = st.tuples(st.sampled_from(['', '', '', '+', '-']), st.one_of(num, num, st.just(''), digits),
                      st.sampled_from(['.', '.', '.', '.', '', '..', ',']), st.one_of(frac_near(0), frac_near(0), digits)).map(''.join)
     cands = draw(st.lists(cand, min_size=4, max_size=12))
+    if draw(st.integers(0, 9)) == 0:
+        kw = draw(st.fixed_dictionaries({}, optional={'start': st.integers(0, 10 ** 9), 'min_decimal': st.integers(1, 3),
+                                                      'max_decimal': st.integers(3, 6)}))
+        big = st.sampled_from([2 ** 30, 2 ** 30 + 1, 1500000000, 2 ** 31 - 1, 2 ** 31, 2 ** 32, 999999999, 10 ** 9, 3000000000, 5, 0]).map(str)
+        intpart = st.one_of(big, big, st.integers(0, 2 ** 33).map(str), st.just(''))
+        c2 = st.tuples(intpart, st.sampled_from(['.', '.', '.', '']), st.text(st.sampled_from('0123456789'), min_size=0, max_size=7)).map(''.join)
+        return {'mode': 'defaults', 'variant': variant, 'include_sign': False, 'kw': kw, 'candidates': draw(st.lists(c2, min_size=4, max_size=10))}
     if draw(st.integers(0, 3)) == 0:
         return {'mode': 'ext', 'variant': draw(st.sampled_from(['Decimal', 'UnsignedDecimal'])), 'include_sign': False, 'start': start,
                 'end': end, 'min': mn, 'max': mx, 'candidates': cands, 'prefix': draw(st.sampled_from(['id', 'x=', '#', 'No ', '('])),
